@@ -35,3 +35,53 @@ Print Assumptions C09_word_injective.
 Example C09_word_example :
   258 < 4294967296 /\ encode_length 258 = [2; 1; 0; 0] /\ read_offset [2; 1; 0; 0; 9] = Ok 258.
 Proof. repeat split. Qed.
+
+(** ** The decoder builder accepts exactly the tiled inputs. *)
+From SSZ Require Import Layout BuilderFacts Codec ListDecFacts.
+
+(** For every registration sequence [regs] (each item fixed with any length, or variable) and
+    every byte string: building succeeds with slices [slices] iff fixed parts, offset words and
+    variable parts tile the input ([Tiles]: one slice per item, fixed items have their registered
+    length, and the input is exactly [assemble] of the parts with every offset word equal to the
+    position of its part), and the slices are handed out in registration order. *)
+Theorem C09_builder_tiles :
+  forall regs bs slices, wfb bs -> len bs <= usize_max ->
+    (builder_build regs bs = Ok slices <-> Tiles regs bs slices).
+Proof. exact builder_build_tiles. Qed.
+Print Assumptions C09_builder_tiles.
+
+(** [decode_next] called once per registered item returns the slices in order. *)
+Theorem C09_decode_next_in_order :
+  forall (items : list bytes) (fs : list (bytes -> outcome bytes)),
+    length items = length fs ->
+    decode_all items fs = mapM (fun p : (bytes -> outcome bytes) * bytes => fst p (snd p)) (combine fs items).
+Proof. intros. now apply decode_all_mapM. Qed.
+Print Assumptions C09_decode_next_in_order.
+
+(** The tiling spelled out as in the property text: the first offset equals the end of the fixed
+    part (or, without variable items, the input ends there), offsets are non-decreasing and none
+    is past the end. *)
+Theorem C09_offsets_spelled_out :
+  forall regs bs slices, Tiles regs bs slices ->
+    let parts := combine (map fst regs) slices in
+    let offs := offsets_of (fixed_size parts) parts in
+    (forall o, In o offs -> fixed_size parts <= o /\ o <= len bs) /\
+    (match offs with [] => len bs = fixed_size parts | o :: _ => o = fixed_size parts end) /\
+    (forall i j, (i <= j)%nat -> (j < length offs)%nat -> nth i offs 0 <= nth j offs 0).
+Proof. exact tiles_offsets. Qed.
+Print Assumptions C09_offsets_spelled_out.
+
+(** Lists of variable-size items: decoding succeeds exactly on tiled offset tables, each item
+    decoder receiving its own bytes in order. *)
+Theorem C09_list_tiles :
+  forall (d : bytes -> outcome val) bs vs, wfb bs ->
+    (decode_list_var d CVec bs None = Ok vs <->
+     (bs = [] /\ vs = []) \/ (exists slices, TilesList bs slices /\ mapM d slices = Ok vs)).
+Proof. intros d bs vs. apply decode_list_var_tiles. Qed.
+Print Assumptions C09_list_tiles.
+
+(** Non-vacuity: a concrete tiled input. *)
+Example C09_tiles_example :
+  builder_build [(true, 1); (false, 4); (true, 2); (false, 4)] [7; 11; 0; 0; 0; 8; 9; 13; 0; 0; 0; 1; 2; 3]
+  = Ok [[7]; [1; 2]; [8; 9]; [3]].
+Proof. reflexivity. Qed.
